@@ -11,7 +11,7 @@ STUBS = ["numba dispatcher contract: eager signatures checked (ndim/layout) at t
 OUTSIDE = ["directions/poses not on a sweep", "zero direction (excluded by the property)", "rounding"]
 BOUNDS = {"quick": "12 shapes (+Margin wrappers) x {6 direction lines d0+t*d1, t in [-3,3], at 2-3 signed-permutation poses; 3 rotation sweeps (all angles but pi) with fixed directions}; meshes: every start vertex of the cached hill-climb (covers any query history)",
           "thorough": "21 shapes x all 24 signed-permutation poses x 6 direction lines + 9 rotation sweeps"}
-WALL_BUDGET = {"quick": 300, "thorough": 900}
+WALL_BUDGET = {"quick": 300, "thorough": 600}
 
 
 def make(family, args):
